@@ -69,7 +69,8 @@ DIAG_KINDS = [
     (r"invalid instruction", "invalid_instruction", 10),
     (r"cannot redefine symbol|cannot import an already defined", "redefinition", 11),
     (r"file not found", "file_not_found", 12),
-    (r"is not assigned to any bank|bank .* (not|unknown)|Unknown definition type|does not evaluate to a string|"
+    (r"is not assigned to any bank|bank .* (not|unknown)|Unknown definition type|does not evaluate to a string|may not be negative|"
+     r"should have be .* bytes|exceeds maximum size|"
      r"could not evaluate configuration key|required|not allowed|field", "configuration", 13),
 ]
 
@@ -81,8 +82,8 @@ def diag_kind(msg):
     return "other"
 
 
-def stage_outcome(x):
-    """one codegen stage of the probe's reply -> (class, detail)"""
+def stage_outcome(x, later_stages=True):
+    """one codegen stage of the probe's reply -> (class, detail); later_stages: bank merge and listing count too"""
     if x is None:
         return ("absent", None)
     if "panic" in x:
@@ -90,9 +91,9 @@ def stage_outcome(x):
     if x.get("stop"):
         return ("no_convergence_within_watch", x["stop"])
     for k in ("merge_panic", "listing_panic", "extra_pass_panic"):
-        if k in x:
+        if k in x and (later_stages or k == "merge_panic"):
             return ("panic", dict(x[k], where=k))
-    errs = x.get("errors", []) + x.get("merge_errors", []) + x.get("listing_errors", [])
+    errs = x.get("errors", []) + x.get("merge_errors", []) + (x.get("listing_errors", []) if later_stages else [])
     if errs:
         return ("diag", sorted(set(diag_kind(e["msg"]) for e in errs)))
     return ("ok", None)
@@ -155,10 +156,12 @@ class Known:
             return sorted({idx[w.lower()] for w in re.findall(r"([A-Za-z_][A-Za-z0-9_]*)\s*\(", t) if w.lower() in idx})
         return [calls(top)] + [calls("\n".join(bodies[n])) for n in names]
 
-    def macro_recursion(self, files):
+    def macro_recursion(self, files, greedy=True):
         g = self.macro_graph(files)
         if len(g) <= 1:
             return False
+        if greedy:       # greedy analysis also expands every uninvoked macro
+            g = [sorted(set(g[0]) | set(range(1, len(g))))] + g[1:]
         return bool(self.model.call({"cmd": "depth", "kind": "macro", "graph": g}).get("known"))
 
     def literal_values(self, files, pattern):
@@ -182,12 +185,24 @@ class Known:
         return False
 
     def pc_out_of_range(self, files):
-        pats = [r"\*\s*=\s*([^\n{}]+)", r"\bstart\s*=\s*([^\n{}]+?)(?=\s+(?:pc|write|bank|name)\s*=|\s*\}|\n)",
-                r"\bpc\s*=\s*([^\n{}]+?)(?=\s+(?:start|write|bank|name)\s*=|\s*\}|\n)"]
-        for p in pats:
-            for v in self.literal_values(files, p):
-                if v is None or self.model.call({"cmd": "known", "pc": str(v)}).get("pc"):
+        """some `* =` value v, segment start s and segment pc t of the program (defaults: the default segment) satisfy
+        Known_pc_out_of_range v s t; a value that cannot be evaluated from the text alone counts as unknown = possible"""
+        star = self.literal_values(files, r"\*\s*=\s*([^\n{}]+)")
+        starts = self.literal_values(files, r"\bstart\s*=\s*([^\n{}]+?)(?=\s+(?:pc|write|bank|name)\s*=|\s*\}|\n)")
+        pcs = self.literal_values(files, r"\bpc\s*=\s*([^\n{}]+?)(?=\s+(?:start|write|bank|name)\s*=|\s*\}|\n)")
+        if None in star or None in starts or None in pcs:
+            return True
+        segs = [(PC0, PC0)] + [(s0, s0) for s0 in starts] + [(s0, t) for s0 in (starts or [0]) for t in pcs]
+        for (s0, t) in segs:
+            for v in (star or [s0]):
+                if self.model.call({"cmd": "known", "pc": str(v), "initial": str(s0), "target": str(t)}).get("pc"):
                     return True
+        return False
+
+    def bank_huge(self, files):
+        for v in self.literal_values(files, r"\bsize\s*=\s*([^\n{}]+?)(?=\s+(?:fill|name|filename|create-segment)\s*=|\s*\}|\n)"):
+            if v is None or self.model.call({"cmd": "bank", "size": str(v), "len": "0", "fill": True}).get("known"):
+                return True
         return False
 
     def classify(self, files, kind):
@@ -197,6 +212,8 @@ class Known:
                 return "Known_deep_nesting"
             if self.macro_recursion(files):
                 return "Known_macro_recursion"
+            if self.bank_huge(files):
+                return "Known_bank_size_huge"
         if kind == "hang" and self.loop_huge(files):
             return "Known_loop_count_huge"
         if kind == "panic" and self.pc_out_of_range(files):
@@ -277,7 +294,7 @@ def gen_stmt(rng, names, macros, depth):
     if r < 0.67:
         return "* = %s" % rng.choice(["$c100", "$2000", "$ffff", "$10000", "* + 3", e(1)])
     if r < 0.72 and depth > 0:
-        return ".loop %s { %s }" % (rng.choice(["0", "1", "2", "3", "5", e(0)]), gen_stmt(rng, names + ["index"], macros, depth - 1))
+        return ".loop %s { %s }" % (rng.choice(["0", "1", "2", "3", "5", "2 + 1", "1 - 2"]), gen_stmt(rng, names + ["index"], macros, depth - 1))
     if r < 0.79 and depth > 0:
         s = ".if %s { %s }" % (e(1), gen_stmt(rng, names, macros, depth - 1))
         if rng.random() < 0.5:
@@ -372,6 +389,10 @@ class Run:
             diags += x.get("errors", []) + x.get("merge_errors", []) + x.get("listing_errors", [])
             if cls == "ok":
                 produced_output = True
+                if x.get("repeat"):
+                    # the loop state recurred, so the passes never converge; reporting success means an arbitrary pass was taken as the result
+                    fail("hang", "%s reports success although the pass loop never converges (the loop state of pass %d recurs in pass %d)"
+                         % (st, x["repeat"]["first"], x["repeat"]["again"]))
         for name, f in (reply.get("format") or {}).items():
             if "panic" in f:
                 fail("panic", "format(%s) panics: %s at %s" % (name, f["panic"]["msg"][:120], f["panic"]["loc"]))
@@ -441,7 +462,7 @@ class Run:
         elif reply.get("hang"):
             got = "hang"
         else:
-            cls, det = stage_outcome(reply.get("codegen"))
+            cls, det = stage_outcome(reply.get("codegen"), later_stages=False)   # the statement models stop at the bank merge
             if "panic" in reply.get("parse", {}):
                 got = "panic"
             elif reply.get("parse", {}).get("errors"):
@@ -491,7 +512,7 @@ class Run:
         # ---- .align
         for v in vals:
             for text in [lit(v), "%s + 0" % lit(v)] if I64_MIN <= v <= I64_MAX else [str(v)]:
-                prog = "nop\n.align %s\nnop\n" % text
+                prog = "nop\n.align %s\n" % text
                 pred = self.stmt_prediction("align", text, pc=PC0 + 1)
                 reply, fails = self.case("sweep_align", {"main.asm": prog})
                 self.expect("sweep_align", {"main.asm": prog}, reply, fails, pred, "`.align %s` at $c001" % text)
@@ -511,10 +532,22 @@ class Run:
             pred = self.stmt_prediction("pc", lit(s), initial=s % 2 ** 64, target=p % 2 ** 64)
             reply, fails = self.case("sweep_segment", {"main.asm": prog})
             self.expect("sweep_segment", {"main.asm": prog}, reply, fails, pred, "segment start=%d pc=%d then nop" % (s, p))
-        # ---- bank options size / fill (oracle only: the bank writer is C09's model)
+        # ---- bank options size / fill: the model predicts diagnostic / padding size; beyond 2^30 bytes of padding it is the known finding
         for v in opts:
-            prog = '.define bank { name = "b" size = %s fill = %s }\n.define segment { name = "a" start = $1000 bank = "b" }\nnop\n' % (lit(v), lit(v))
-            self.case("sweep_bank", {"main.asm": prog})
+            for fill in (True, False):
+                if v > 2 ** 33 and fill and self.dist.get("bank_huge_runs", 0) >= 2:
+                    continue                 # each of these costs an aborted child (allocation failure)
+                prog = '.define bank { name = "b" size = %s%s }\n.define segment { name = "a" start = $1000 bank = "b" }\nnop\n' % (lit(v), " fill = 7" if fill else "")
+                r = self.model.call({"cmd": "bank", "size": str(v), "len": "1", "fill": fill})
+                if r["r"] == "ok" and r.get("known"):
+                    pred = "abort"
+                    self.bump("bank_huge_runs")
+                else:
+                    pred = "ok" if r["r"] == "ok" else "diag:configuration"
+                reply, fails = self.case("sweep_bank", {"main.asm": prog})
+                if reply is not None and pred == "abort" and not reply.get("crash"):
+                    pred = "ok"                # enough memory for this size on this machine: fine
+                self.expect("sweep_bank", {"main.asm": prog}, reply, fails, pred, "bank size %d fill=%s" % (v, fill))
         # ---- names
         for name in ["a", "a.b", ".", "a.", "..", "x y", "", "é.é", "default", "$dummy"]:
             r = self.model.call({"cmd": "name", "text": T(name)})
@@ -550,13 +583,14 @@ class Run:
         for i in range(n):
             nf = rng.randrange(1, 5)
             names = ["main.asm"] + ["f%d.asm" % k for k in range(1, nf)]
-            graph, files, missing = [], {}, False
+            graph, files, missing_in = [], {}, set()
             for k, name in enumerate(names):
                 lines, edges = [], []
                 for _ in range(rng.choice([0, 1, 1, 2])):
                     t = rng.randrange(0, nf + 1)
                     if t == nf:
-                        target, missing = "missing.asm", True
+                        target = "missing.asm"
+                        missing_in.add(k)
                     else:
                         target = names[t]
                         edges.append(t)
@@ -566,6 +600,14 @@ class Run:
                 files[name] = "\n".join(lines) + "\n"
                 graph.append(edges)
             pred = self.model.call({"cmd": "depth", "kind": "import", "graph": graph})
+            # files the parser reaches from main.asm (it follows every import of every parsed file, once)
+            reach, todo = set(), [0]
+            while todo:
+                k = todo.pop()
+                if k not in reach:
+                    reach.add(k)
+                    todo += graph[k]
+            missing = any(k in reach for k in missing_in)
             reply, fails = self.case("import_graph", files, sample=(i < 2))
             if reply is None or reply.get("crash") or reply.get("hang"):
                 continue
